@@ -72,14 +72,22 @@ Proof. cbv zeta. repeat split; vm_compute; reflexivity. Qed.
 
 (* ---------------------------------------------------------------- C06 *)
 
-(* RTU: two valid frames in one read: only the first is delivered by that call; the second
-   is delivered by the NEXT call, whatever it brings (here an empty read) *)
-Lemma rtu_one_frame_per_call_witness :
+(* RTU (FIXED in /repo: drain loop): two valid frames in one read are both delivered by that call *)
+Lemma rtu_pipelined_fixed_witness :
   let fa := spec_adu_rtu 1 pdu_a in let fb := spec_adu_rtu 1 pdu_b in
   deliveries (rtu_feed cfg_server rtu_init [fa; fb]) = [(pdu_a, 1%Z); (pdu_b, 1%Z)] /\
-  deliveries (rtu_feed cfg_server rtu_init [fa ++ fb]) = [(pdu_a, 1%Z)] /\
-  deliveries (rtu_feed cfg_server rtu_init [fa ++ fb; []]) = [(pdu_a, 1%Z); (pdu_b, 1%Z)].
+  deliveries (rtu_feed cfg_server rtu_init [fa ++ fb]) = [(pdu_a, 1%Z); (pdu_b, 1%Z)] /\
+  deliveries (rtu_feed cfg_server rtu_init [fa ++ firstn 3 fb; skipn 3 fb]) = [(pdu_a, 1%Z); (pdu_b, 1%Z)].
 Proof. cbv zeta. repeat split; vm_compute; reflexivity. Qed.
+
+(* RTU (FIXED in /repo): a frame for a unit that is not served is skipped; the frames behind it
+   in the same read are delivered *)
+Lemma rtu_foreign_unit_skipped_witness :
+  let cfg := {| cf_dec := fun _ => DMsg; cf_rules := server_decoder; cf_units := [1%Z]; cf_single := false |} in
+  let fa := spec_adu_rtu 1 pdu_a in let ff := spec_adu_rtu 9 pdu_b in
+  deliveries (rtu_feed cfg rtu_init [fa ++ ff ++ fa]) = [(pdu_a, 1%Z); (pdu_a, 1%Z)] /\
+  exits (rtu_feed cfg rtu_init [fa ++ ff ++ fa]) = [FOk].
+Proof. cbv zeta. split; vm_compute; reflexivity. Qed.
 
 (* RTU, response direction: a Read Device Identification response cut inside its object
    list makes struct.error escape; the half-written header then raises KeyError on every
@@ -143,10 +151,10 @@ Lemma rtu_fifo_size_witness :
   length (r_buf (fst (fst (rtu_feed cfg_client rtu_init [[1; 24; 255; 255]; f; f; f; f])))) = 32%nat.
 Proof. cbv zeta. repeat split; vm_compute; reflexivity. Qed.
 
-(* RTU: several frames per read: one is consumed per call, so the backlog grows by one frame
-   per read for ever *)
-Lemma rtu_backlog_growth_witness :
+(* RTU (FIXED in /repo): several frames per read are all consumed by that read: no backlog *)
+Lemma rtu_no_backlog_fixed_witness :
   let f := spec_adu_rtu 1 pdu_a in
   map (fun n => length (r_buf (fst (fst (rtu_feed cfg_server rtu_init (repeat (f ++ f) n))))))
-      [1; 2; 3; 4; 5]%nat = [8; 16; 24; 32; 40]%nat.
-Proof. vm_compute. reflexivity. Qed.
+      [1; 2; 3; 4; 5]%nat = [0; 0; 0; 0; 0]%nat /\
+  length (deliveries (rtu_feed cfg_server rtu_init (repeat (f ++ f) 5))) = 10%nat.
+Proof. split; vm_compute; reflexivity. Qed.
